@@ -13,7 +13,20 @@ pub fn kf() -> &'static Kf {
     })
 }
 
+/// the property this campaign decides (`VERIF_FUZZ_PROP`); a target shared by several properties judges
+/// only that one, so that a campaign run for one property never reports another property's violation
+pub fn campaign_prop() -> Option<&'static str> {
+    static P: OnceLock<Option<String>> = OnceLock::new();
+    P.get_or_init(|| std::env::var("VERIF_FUZZ_PROP").ok()).as_deref()
+}
+pub fn wanted(prop: &str) -> bool {
+    campaign_prop().map_or(true, |p| p == prop)
+}
+
 pub fn judge<E: Engine>(e: &E, prop: &str, c: &Case) {
+    if !wanted(prop) {
+        return;
+    }
     let ev = e.eval(prop, c, true, kf());
     if !ev.fails.is_empty() {
         let dir = std::env::var("VERIF_FOUND_DIR").unwrap_or_else(|_| format!("/verif/replays/{}/found", prop));
